@@ -8,78 +8,73 @@
 // `go test ./...` in this directory (fixtures under testdata/) and validated differentially
 // against the compiled Go code by validate/ (bin/validate-gofunc).
 //
-// usage: gofunc <repo root> <module path> <pkgdir> <out.v> <prefix> Func [Type.Method ...]
-//
-//	gofunc -scan <repo root> <module path> <pkgdir>      (list what is translatable)
-//
-// ------------------------------------------------------------------------------ RULES
-// Values.   Every integer type (intN, uintN, int, uint, uintptr; word size = 64 bit) is Z;
-//
-//	bool is bool; a slice of integers ([]uintN, []intN, named types over them) and a string
-//	(its bytes) are `list Z`.  Nothing else has a representation.
-//	Inputs are ASSUMED to lie in the range of their Go types (nothing is wrapped on entry);
-//	every operation keeps its result in range:
-//	  conversion T(e), + - * / % << unary - ^   of unsigned type uintN:  (e) mod 2^N
-//	                                            of signed type intN:  two's complement
-//	                                            ((e + 2^(N-1)) mod 2^N - 2^(N-1))
-//	  & | ^ &^ >>            Z.land Z.lor Z.lxor Z.ldiff Z.shiftr (closed on in-range values;
-//	                         Z.shiftr of a negative number is the arithmetic shift)
-//	  / %                    Z.quot Z.rem (truncated); a divisor that is not a non-zero
-//	                         constant: go_quot/go_rem = Panic when it is 0
-//	  << >> by a variable    count n of signed type: Panic when n < 0; the count is capped
-//	                         (Z.min n N) - Go gives 0 (or -1) for n >= N as well
-//	  == != < <= > >=        Z.eqb ... (Bool.eqb on bools);  && || !  with short circuit
-//	  constants              folded by go/types, emitted as literals
-//	  len(s)                 go_len s (Z.of_nat (length s))
-//	  s[i]                   go_index s i: Panic unless 0 <= i < len s
-//	  s[i:]                  go_slice_from s i: Panic unless 0 <= i <= len s
-//	                         (s[:j], s[i:j] depend on cap(s): not translatable)
-//	  min, max               Z.min, Z.max
-//
-// Parameters.  A parameter (or receiver) of a representable type is one parameter of the
-//
-//	definition, v_<name>.  A parameter of struct / pointer-to-struct type contributes one
-//	parameter per field path that the body reads, v_<name>_<field>[_<field>...], in order of
-//	first use (pointers on the path are ASSUMED non-nil).  len(p.f) of a slice of
-//	non-integers is the parameter n_<name>_<field> (ASSUMED >= 0).  Fields, slices and
-//	package-level variables cannot be written, so these values are constant during the call.
-//
-// Statements.  x := e, var x T [= e], x = e, x op= e, x++, x--, a, b = e1, e2 (parallel),
-//
-//	a, b := f(...), _ = e (evaluated for its panics), if/else if/else (with init), switch on
-//	an integer/bool tag or tagless (no fallthrough; case expressions must not be able to
-//	panic), for cond {}, for init; cond; post {}, for {}, for i, v := range s (s a slice of
-//	integers), break, continue, return (also bare, with named results), panic(...), blocks.
-//	Only local variables can be assigned.  Each Go variable gets one Gallina name (a second
-//	variable of the same name: v_x_2); an assignment is a `let` that shadows it.
-//	Statement lists are translated in continuation-passing style: the statements after an
-//	`if`/`switch` are repeated in each branch that falls through.
-//
-// Loops.  Each loop becomes  <f>_loopK_body : ... -> state -> outcome (step state result)
-//
-//	(one iteration: Next s / Done s on a false condition or break / Ret r on return) and
-//	<f>_loopK fuel ... state := go_loop fuel (<f>_loopK_body ...) state.  The state is the
-//	tuple of the outer variables the loop assigns (in declaration order); the outer variables
-//	and inputs it only reads are extra parameters.  Every loop and every called function
-//	that loops gets the same `fuel : nat` = the bound on the iterations of each single loop.
-//
-// Calls.  Only functions/methods of the same package that were translated before (names are
-//
-//	given callees first).  A struct argument must itself be a parameter or a field path.
-//
-// Results.  One result: its type; several: a tuple.  A function in which nothing can panic
-//
-//	and nothing loops is a plain definition `: T`; any other is `: outcome T`
-//	(Ok v | Panic | OutOfFuel, see coq/Lib/GoSem.v) and takes `fuel` first if it loops.
-//
-// Everything else (floats, maps, channels, pointers, closures, defer, go, select, goto,
-//
-//	labels, append/make/copy, writes to fields or slice elements, calls outside the set,
-//	generic or variadic functions, range over strings/maps/channels/integers) makes the
-//	function `NOT TRANSLATABLE: reason`: a comment in the output, so a proof that needs the
-//	definition stops compiling.
-//
-// Not modelled: data races, stack overflow, out-of-memory, nil receivers.
+// usage: gofunc <repo root> <module path> <pkgdir> <out.v> <prefix> Func [Type.Method | import/path:Func ...]
+//        gofunc -scan <repo root> <module path> <pkgdir>      (list what is translatable)
+
+/* ------------------------------------------------------------------------------ RULES
+Values.   Every integer type (intN, uintN, int, uint, uintptr; word size = 64 bit) is Z;
+  bool is bool; a slice of integers ([]uintN, []intN, named types over them) and a string
+  (its bytes) are `list Z`.  Nothing else has a representation.
+  Inputs are ASSUMED to lie in the range of their Go types (nothing is wrapped on entry);
+  every operation keeps its result in range:
+    conversion T(e), + - * / % << unary - ^   of unsigned type uintN:  (e) mod 2^N
+                                              of signed type intN:  two's complement
+                                              ((e + 2^(N-1)) mod 2^N - 2^(N-1))
+    & | ^ &^ >>            Z.land Z.lor Z.lxor Z.ldiff Z.shiftr (closed on in-range values;
+                           Z.shiftr of a negative number is the arithmetic shift)
+    / %                    Z.quot Z.rem (truncated); a divisor that is not a non-zero
+                           constant: go_quot/go_rem = Panic when it is 0
+    << >> by a variable    count n of signed type: Panic when n < 0; the count is capped
+                           (Z.min n N) - Go gives 0 (or -1) for n >= N as well
+    == != < <= > >=        Z.eqb ... (Bool.eqb on bools);  && || !  with short circuit
+    constants              folded by go/types, emitted as literals
+    len(s)                 go_len s (Z.of_nat (length s))
+    s[i]                   go_index s i: Panic unless 0 <= i < len s
+    s[i:]                  go_slice_from s i: Panic unless 0 <= i <= len s
+                           (s[:j], s[i:j] depend on cap(s): not translatable)
+    min, max               Z.min, Z.max
+Parameters.  A parameter (or receiver) of a representable type is one parameter of the
+  definition, v_<name>.  A parameter of struct / pointer-to-struct type contributes one
+  parameter per field path that the body reads, v_<name>_<field>[_<field>...], in order of
+  first use (pointers on the path are ASSUMED non-nil).  len(p.f) of a slice of
+  non-integers is the parameter n_<name>_<field> (ASSUMED >= 0).  Fields, slices and
+  package-level variables cannot be written, so these values are constant during the call.
+Statements.  x := e, var x T [= e], x = e, x op= e, x++, x--, a, b = e1, e2 (parallel),
+  a, b := f(...), _ = e (evaluated for its panics), if/else if/else (with init), switch on
+  an integer/bool tag or tagless (no fallthrough; case expressions must not be able to
+  panic), for cond {}, for init; cond; post {}, for {}, for i, v := range s (s a slice of
+  integers), break, continue, return (also bare, with named results), panic(...), blocks.
+  Only local variables can be assigned.  Each Go variable gets one Gallina name (a second
+  variable of the same name: v_x_2); an assignment is a `let` that shadows it.
+  Statement lists are translated in continuation-passing style: the statements after an
+  `if`/`switch` are repeated in each branch that falls through.
+Loops.  Each loop becomes  <f>_loopK_body : ... -> state -> outcome (step state result)
+  (one iteration: Next s / Done s on a false condition or break / Ret r on return) and
+  <f>_loopK fuel ... state := go_loop fuel (<f>_loopK_body ...) state.  The state is the
+  tuple of the outer variables the loop assigns (in declaration order; a range loop's
+  hidden index r_idx first); the outer variables and inputs it only reads are extra
+  parameters.  Every loop and every called function that loops gets the same `fuel : nat`
+  = the bound on the iterations of each single loop.
+Calls.  Only functions/methods that were translated before (names are given callees first).
+  A callee in another package is named "import/path:F" or "import/path:T.M" and translated
+  from its source like any other: a package of the module from its directory, anything
+  else from GOROOT/src (e.g. "encoding/binary:bigEndian.Uint16"); its definition is called
+  <prefix><pkg>_<T>_<M>.  A struct argument must itself be a parameter or a field path; an
+  argument (or receiver) the callee reads nothing of is not evaluated and must be a plain
+  name (binary.BigEndian).
+Files.  Those the go tool would compile without build tags (so `//go:build verif` hooks and
+  *_test.go are left out).
+Results.  One result: its type; several: a tuple.  A function in which nothing can panic
+  and nothing loops is a plain definition `: T`; any other is `: outcome T`
+  (Ok v | Panic | OutOfFuel, see coq/Lib/GoSem.v) and takes `fuel` first if it loops.
+Everything else (floats, maps, channels, pointers, closures, defer, go, select, goto,
+  labels, append/make/copy, writes to fields or slice elements, calls outside the set,
+  generic or variadic functions, range over strings/maps/channels/integers) makes the
+  function `NOT TRANSLATABLE: reason`: a comment in the output, so a proof that needs the
+  definition stops compiling.
+Not modelled: data races, stack overflow, out-of-memory, nil receivers.
+*/
+
 package main
 
 import (
